@@ -37,7 +37,7 @@ ODD_PHRASES = ["is employee's boss", "reports to employee's boss", 'has (many)',
                ' padded ', 'PHRASE', "it''s"]
 
 store.PROFILES['C01'] = dict(new=5, new_args=2, relate=7, unrelate=2, delete=1.5, setattr=7, checkpoint=4, select=0.5, nav=0.5,
-                             swap_attr=0.5)
+                             swap_attr=0.5, grow=0.25)
 
 
 def rename_with_keywords(rng, schema):
